@@ -16,6 +16,12 @@ Legs
   C  context shapes  : the configuration offered as ctx.config / ctx.cfg / both x root container {Config dataclass,
                        attribute-dict (run_smoke_turn's shape), plain dict (what validate_config returns)}
                        (+ the declared TurnCtx dataclass, which only has cfg).
+  D  call history    : partial / absent t4 sections after an earlier call with other caps.
+  E  key collation   : a second target alphabet on which the order of the documented canonical key STRING
+                       'kind:id:attr' differs from every plausible other collation (component-wise tuple order, natural
+                       numeric order, case-folded order, attr-major order, id-length order): ids in a prefix relation
+                       followed by a character below / above the ':' separator, unpadded numbers, mixed case, two attrs.
+                       Every multiset of <= n deltas over it x tie-producing values x caps that cut at a tie.
 
 Oracle clauses (signature prefix): envelope:* (invariants of the statement, independent of the reference),
 report:* (blocked ops reported), ref:* (documented pipeline), perm:* (order independence, all permutations),
@@ -28,6 +34,7 @@ from __future__ import annotations
 import copy
 import itertools
 import math
+import re
 from fractions import Fraction
 from functools import lru_cache
 from types import SimpleNamespace as NS
@@ -72,6 +79,36 @@ def keystr(t):
 
 
 assert sorted(TARGETS) == sorted(TARGETS, key=keystr) == TARGETS
+
+
+# Leg E: targets on which the canonical key STRING order is told apart from other collations.  Ids keep the documented
+# shapes ("n:node_id", "e:src|rel|dst"); kinds are the two declared ones.  In canonical (string) order:
+TARGETS_COLL = [("edge", "e:n:1|coact|n:2", "weight"),
+                ("node", "n:10", "weight"),      # "n:10:" < "n:1:w" because '0' < ':'  (prefix + character below the separator)
+                ("node", "n:1", "weight"),
+                ("node", "n:1a", "weight"),      # prefix + character above the separator (control: both collations agree)
+                ("node", "n:2", "label"),        # second attr: an attr-major order puts it before every "weight"
+                ("node", "n:2", "weight"),
+                ("node", "n:B", "weight"),       # upper case sorts before lower case; case-folded order puts it last
+                ("node", "n:a-b", "weight"),     # '-' < ':'
+                ("node", "n:a", "weight")]
+VALUES_COLL = [0.25, -0.25, 1.0]      # +-1/4 tie (also across signs); 1.0 saturates at every novelty cap of the menu
+COLL_CAPS_QUICK = [dict(DEFAULT_CAPS), dict(DEFAULT_CAPS, churn=1), dict(DEFAULT_CAPS, churn=2),
+                   dict(DEFAULT_CAPS, nov=2.0 ** -20, churn=1), dict(DEFAULT_CAPS, nov=2.0 ** -20, churn=2),
+                   dict(DEFAULT_CAPS, l2=0.3, churn=1)]
+
+
+def _natural(t):
+    return [tuple((0, int(x)) if x.isdigit() else (1, x) for x in re.findall(r"\d+|\D+", c)) for c in t]
+
+
+# other collations a re-implementation of the key could slip into; each must disagree with the canonical string order
+# on this alphabet (otherwise the leg could not tell them apart)
+ALT_COLLATIONS = {"tuple": lambda t: t, "natural-numeric": _natural, "case-folded": lambda t: keystr(t).lower(),
+                  "attr-major": lambda t: (t[0], t[2], t[1]), "shortest-id-first": lambda t: (t[0], len(t[1]), t[1], t[2])}
+assert TARGETS_COLL == sorted(TARGETS_COLL, key=keystr) and len({keystr(t) for t in TARGETS_COLL}) == len(TARGETS_COLL)
+for _name, _key in ALT_COLLATIONS.items():
+    assert sorted(TARGETS_COLL, key=_key) != TARGETS_COLL, "collation %s not distinguished by TARGETS_COLL" % _name
 
 
 def caps_menu(thorough: bool):
@@ -822,6 +859,23 @@ def _leg_shapes(chunk, st: Stats, leg_id):
             st.sample(make_case(*args))
 
 
+def _leg_coll(chunk, st: Stats, legs):
+    """chunk: list of (subleg id, index, multiset of item indices); legs: id -> (items, caps list); items are
+    (index into TARGETS_COLL, value)"""
+    for (sid, mi, ms) in chunk:
+        items, caps_list = legs[sid]
+        deltas = tuple((TARGETS_COLL[items[i][0]], items[i][1], None) for i in ms)
+        for ci, caps in enumerate(caps_list):
+            st.distinct("states", (sid << 44) | (mi << 10) | ci)
+            args = (deltas, (), caps, {}, {}, 5, "int", "ns", "both", "plan")
+            res = run_case(*args, st=st)
+            st.add("collation_cases")
+            if res:
+                _report(st, res, args)
+        if mi % 1201 == 0:
+            st.sample(make_case(deltas, (), caps_list[mi % len(caps_list)], {}, {}, 5, "int", "ns", "both", "plan"))
+
+
 # ---------------------------------------------------------------- leg D: the result depends on nothing but its arguments
 PARTIAL_T4 = [None, {}, {"novelty_cap_per_node": 0.125}, {"churn_cap_edges": 1}, {"delta_norm_cap_l2": 0.25},
               {"cooldowns": {"EditGraph": 3}}, {"novelty_cap_per_node": 1.0, "delta_norm_cap_l2": 1e9}]
@@ -974,6 +1028,19 @@ def run(run: Run) -> None:
     run.pmap(_leg_history, d_cases, chunks=8)
     run.notes["legD_cases"] = len(d_cases)
 
+    # ---- leg E: collation of the canonical key ------------------------------------------------------
+    e_items = [(ti, v) for ti in range(len(TARGETS_COLL)) for v in VALUES_COLL]
+    e_legs = {14: (e_items, (caps_1 + [c for c in COLL_CAPS_QUICK if c not in caps_1]) if th else COLL_CAPS_QUICK)}
+    e_work = [(14, mi, ms) for mi, ms in enumerate(multisets(range(len(e_items)), 3))]
+    if th:
+        e_items4 = [(ti, v) for ti in range(len(TARGETS_COLL)) for v in (0.25, -0.25)]
+        e_legs[15] = (e_items4, [dict(DEFAULT_CAPS), dict(DEFAULT_CAPS, churn=1), dict(DEFAULT_CAPS, churn=2)])
+        e_work += [(15, mi, ms) for mi, ms in enumerate(multisets(range(len(e_items4)), 4, 4))]
+    run.pmap(_leg_coll, e_work, extra=(e_legs,), chunks=NCHUNKS)
+    run.notes["legE_multisets"] = len(e_work)
+    run.notes["legE_targets_in_canonical_order"] = [keystr(t) for t in TARGETS_COLL]
+    run.notes["legE_collations_told_apart_from_canonical"] = sorted(ALT_COLLATIONS)
+
     run.rule = (
         "A (no ops): %s; caps alphabet novelty {2^-20,0.3,1}, L2 {2^-10,0.3,1.5,1e9%s}, churn {0,1,2,64}.  "
         "B: every ops list of <=2 ops over {Speak,EditGraph,CreateGraph,dict-op} (21) x 7 cooldown menus x last-turn "
@@ -982,7 +1049,9 @@ def run(run: Run) -> None:
         "(state {object,dict,attribute-dict} x meta {object,dict,attribute-dict} = 9; for an empty history also meta "
         "{missing,None} and cooldowns {missing,None}: 33) x turn id {int,str} x plan {Plan,dict}.  C: %d context shapes "
         "(config offered as ctx.config / ctx.cfg / both x root {Config dataclass, attribute-dict, plain dict} + declared "
-        "TurnCtx) x all caps settings x 3 cooldown worlds.  Every case = canonical "
+        "TurnCtx) x all caps settings x 3 cooldown worlds.  E (key collation, no ops): %s over 9 targets whose canonical key "
+        "string order differs from tuple / natural-numeric / case-folded / attr-major / shortest-id-first order (ids n:1, "
+        "n:10, n:1a, n:2, n:B, n:a, n:a-b, an edge, attrs weight+label) x values {+-1/4,1}%s.  Every case = canonical "
         "ordering + every other distinct permutation of the delta list (each compared with the Fraction reference pipeline "
         "through the first result and envelope-checked) + repeat call with fresh junk-laden ctx/state.  non-trivial = some "
         "stage acted (a reason reported / op blocked) or duplicate targets or ops present"
@@ -990,7 +1059,9 @@ def run(run: Run) -> None:
            ("every multiset of <=2 deltas over 2 targets x {1/4,1} x op_idx {None,0,1} x caps with <=1 deviation (%d), "
             "every multiset of exactly 3 such deltas x default caps" % len(caps_1)) if th else
            "every multiset of <=2 deltas over 2 targets x {1/4,1} x op_idx {None,0,1} x caps {default, churn=1}",
-           len(CTX_SHAPES)))
+           len(CTX_SHAPES),
+           "every multiset of <=3 deltas" if not th else "every multiset of <=3 deltas (and of exactly 4 over values {+-1/4} x caps {default, churn 1, churn 2})",
+           " x %d caps settings that cut at exact ties (churn 1/2, alone and with a saturating novelty cap / L2 scaling)" % len(e_legs[14][1])))
     run.assume("Float absorption when duplicates of incomparable magnitude are merged (1e300 + 0.25 - 1e300 on one target) "
                "makes any one-by-one float summation order dependent; multisets whose per-target sub-sums are not all exactly "
                "representable are executed and envelope/purity-checked, but reference/permutation mismatches there are counted "
@@ -1006,9 +1077,13 @@ def run(run: Run) -> None:
     run.assume("A merged duplicate carries the smallest op index of its contributors (documented provenance rule); whether a "
                "blocked op's contribution may survive inside a merged delta owned by a lower-indexed free op is not judged "
                "(counted as obs_blocked_contribution_survives_by_min_op_idx).")
-    run.assume("Churn ties are broken by canonical key ascending as documented in t4.py; target alphabet chosen so that "
-               "'kind:id:attr' string order and (kind,id,attr) tuple order agree; colliding canonical keys of distinct "
-               "targets (':' inside attr) are outside the alphabet.")
+    run.assume("The canonical key of a target is the documented identity string 'kind:id:attr' (t4.py _canonical_key, 'stable "
+               "identity across all steps'); 'canonical target order' and the churn tie-break 'by canonical key ascending' mean "
+               "ascending order of that string (code-point order of Python str).  Legs A-D use targets on which string order "
+               "and (kind,id,attr) tuple order agree; leg E uses targets on which they (and natural-numeric, case-folded, "
+               "attr-major, shortest-id-first orders) differ, so a re-keyed implementation that collates differently is "
+               "reported as envelope:order / ref:approved-targets.  Colliding canonical keys of distinct targets (':' inside "
+               "attr) and non-ASCII ids are outside the alphabet.")
     run.assume("t1/t2/utter arguments are fixed (None/None/'utter'); both ctx.cfg and ctx.config carry the same object in "
                "legs A/B; DELTA_NORM_HIGH is optional within 2e-6 of the cap; metrics compared only for keys present.")
 
